@@ -26,6 +26,9 @@ import (
 	"github.com/bronlabs/bron-crypto/pkg/base/curves/p256"
 	p256Impl "github.com/bronlabs/bron-crypto/pkg/base/curves/p256/impl"
 	"github.com/bronlabs/bron-crypto/pkg/base/curves/pairable/bls12381"
+	"github.com/bronlabs/bron-crypto/pkg/base/curves/pasta"
+	pastaImpl "github.com/bronlabs/bron-crypto/pkg/base/curves/pasta/impl"
+	"golang.org/x/crypto/blake2b"
 	bls12381Impl "github.com/bronlabs/bron-crypto/pkg/base/curves/pairable/bls12381/impl"
 
 	"verif/harness/internal/vh"
@@ -42,6 +45,7 @@ type modelSuite struct {
 	name    string
 	file    string
 	mk      func() hash.Hash
+	m       int // extension degree (0 = 1)
 	l       func() uint64
 	h2fBase func(dst string, msg []byte, count int) []string // HashToField into the base field
 	h2fSc   func(dst string, msg []byte, count int) []string // HashToField into the scalar field
@@ -211,6 +215,124 @@ func modelSuites() []modelSuite {
 			baseDst: base.Hash2CurveAppTag + bls12381.Hash2CurveSuiteG1, scalarDst: base.Hash2CurveAppTag + bls12381.Hash2CurveScalarSuite,
 		},
 		{
+			name: "bls12381g2", file: "bls12381g2_xmd_sha256_sswu_ro.json", mk: sha256.New, m: 2,
+			l: func() uint64 { return bls12381Impl.G2CurveHasherParams{}.L() },
+			h2fBase: func(dst string, msg []byte, count int) []string {
+				u := make([]bls12381Impl.Fp2, count)
+				h2c.HashToField[*bls12381Impl.Fp2](u, bls12381Impl.G2CurveHasherParams{}, dst, msg)
+				var out []string
+				for i := range u {
+					out = append(out, leHex(u[i].U0.Bytes())+":"+leHex(u[i].U1.Bytes()))
+				}
+				return out
+			},
+			point: func(dst string, msg []byte) (string, error) {
+				_ = bls12381.NewScalarField()
+				p, err := bls12381.NewG2().HashWithDst(dst, msg)
+				if err != nil {
+					return "", err
+				}
+				if p.IsZero() {
+					return "inf", nil
+				}
+				x, _ := p.AffineX()
+				y, _ := p.AffineY()
+				return leHex(x.V.U0.Bytes()) + ":" + leHex(x.V.U1.Bytes()) + "," + leHex(y.V.U0.Bytes()) + ":" + leHex(y.V.U1.Bytes()), nil
+			},
+			baseHash: func(msg []byte) (string, error) {
+				e, err := bls12381.NewG2BaseField().Hash(msg)
+				if err != nil {
+					return "", err
+				}
+				return leHex(e.V.U0.Bytes()) + ":" + leHex(e.V.U1.Bytes()), nil
+			},
+			baseDst: base.Hash2CurveAppTag + bls12381.Hash2CurveSuiteG2,
+		},
+		{
+			name: "pallas", mk: func() hash.Hash { h, _ := blake2b.New512(nil); return h },
+			l: func() uint64 { return pastaImpl.PallasCurveHasherParams{}.L() },
+			h2fBase: func(dst string, msg []byte, count int) []string {
+				u := make([]pastaImpl.Fp, count)
+				h2c.HashToField[*pastaImpl.Fp](u, pastaImpl.PallasCurveHasherParams{}, dst, msg)
+				var out []string
+				for i := range u {
+					out = append(out, leHex(u[i].Bytes()))
+				}
+				return out
+			},
+			h2fSc: func(dst string, msg []byte, count int) []string {
+				u := make([]pastaImpl.Fq, count)
+				h2c.HashToField[*pastaImpl.Fq](u, pastaImpl.PallasCurveHasherParams{}, dst, msg)
+				var out []string
+				for i := range u {
+					out = append(out, leHex(u[i].Bytes()))
+				}
+				return out
+			},
+			point: func(dst string, msg []byte) (string, error) {
+				p, err := pasta.NewPallasCurve().HashWithDst(dst, msg)
+				if err != nil {
+					return "", err
+				}
+				if p.IsZero() {
+					return "inf", nil
+				}
+				x, _ := p.AffineX()
+				y, _ := p.AffineY()
+				return be(x.Bytes()) + "," + be(y.Bytes()), nil
+			},
+			baseHash: func(msg []byte) (string, error) {
+				e, err := pasta.NewPallasBaseField().Hash(msg)
+				if err != nil {
+					return "", err
+				}
+				return be(e.Bytes()), nil
+			},
+			baseDst: base.Hash2CurveAppTag + pasta.PallasHash2CurveSuite,
+		},
+		{
+			name: "vesta", mk: func() hash.Hash { h, _ := blake2b.New512(nil); return h },
+			l: func() uint64 { return pastaImpl.VestaCurveHasherParams{}.L() },
+			h2fBase: func(dst string, msg []byte, count int) []string {
+				u := make([]pastaImpl.Fq, count)
+				h2c.HashToField[*pastaImpl.Fq](u, pastaImpl.VestaCurveHasherParams{}, dst, msg)
+				var out []string
+				for i := range u {
+					out = append(out, leHex(u[i].Bytes()))
+				}
+				return out
+			},
+			h2fSc: func(dst string, msg []byte, count int) []string {
+				u := make([]pastaImpl.Fp, count)
+				h2c.HashToField[*pastaImpl.Fp](u, pastaImpl.VestaCurveHasherParams{}, dst, msg)
+				var out []string
+				for i := range u {
+					out = append(out, leHex(u[i].Bytes()))
+				}
+				return out
+			},
+			point: func(dst string, msg []byte) (string, error) {
+				p, err := pasta.NewVestaCurve().HashWithDst(dst, msg)
+				if err != nil {
+					return "", err
+				}
+				if p.IsZero() {
+					return "inf", nil
+				}
+				x, _ := p.AffineX()
+				y, _ := p.AffineY()
+				return be(x.Bytes()) + "," + be(y.Bytes()), nil
+			},
+			baseHash: func(msg []byte) (string, error) {
+				e, err := pasta.NewVestaBaseField().Hash(msg)
+				if err != nil {
+					return "", err
+				}
+				return be(e.Bytes()), nil
+			},
+			baseDst: base.Hash2CurveAppTag + pasta.VestaHash2CurveSuite,
+		},
+		{
 			name: "edwards25519", file: "edwards25519_xmd_sha512_ell2_ro.json", mk: sha512.New,
 			l: func() uint64 { return edwards25519Impl.CurveHasherParams{}.L() },
 			h2fBase: func(dst string, msg []byte, count int) []string {
@@ -311,18 +433,31 @@ func refXmdTable(mk func() hash.Hash, dst, msg []byte, n int, table *[]string) {
 	}
 }
 
+// fieldText renders a vector's field element: "hex" for F_p, ["c0","c1"] for F_p^2 -> "c0:c1"
+func fieldText(raw json.RawMessage) string {
+	var one string
+	if json.Unmarshal(raw, &one) == nil {
+		return normHex(one)
+	}
+	var two []string
+	if json.Unmarshal(raw, &two) == nil && len(two) == 2 {
+		return normHex(two[0]) + ":" + normHex(two[1])
+	}
+	return string(raw)
+}
+
 type vecFileFull struct {
 	Dst     string `json:"dst"`
 	Vectors []struct {
 		Msg string `json:"msg"`
 		P   struct {
-			X string `json:"x"`
-			Y string `json:"y"`
+			X json.RawMessage `json:"x"`
+			Y json.RawMessage `json:"y"`
 		} `json:"p"`
-		U []string `json:"u"`
+		U []json.RawMessage `json:"u"`
 		Q []struct {
-			X string `json:"x"`
-			Y string `json:"y"`
+			X json.RawMessage `json:"x"`
+			Y json.RawMessage `json:"y"`
 		} `json:"q"`
 	} `json:"vectors"`
 }
@@ -370,7 +505,7 @@ func runH2cModel(a vh.Args, res *vh.Result, corpusDir string, nRandom int) {
 		}); p != "" {
 			c.implErr = "panic: " + p
 		}
-		tbl, b, sz := xmdTable(s.mk, []byte(dst), msg, int(2*s.l()))
+		tbl, b, sz := xmdTable(s.mk, []byte(dst), msg, int(2*s.l())*max(1, s.m))
 		lines = append(lines, fmt.Sprintf("HC %s %s %d %d %s %s %s", id, s.name, b, sz, vh.Hex([]byte(dst)), vh.Hex(msg), tbl))
 		cases = append(cases, c)
 		return c
@@ -382,12 +517,12 @@ func runH2cModel(a vh.Args, res *vh.Result, corpusDir string, nRandom int) {
 			for vi, v := range vf.Vectors {
 				c := add(s, vf.Dst, []byte(v.Msg), fmt.Sprintf("V%d", vi))
 				for _, u := range v.U {
-					c.vecU = append(c.vecU, normHex(u))
+					c.vecU = append(c.vecU, fieldText(u))
 				}
 				for _, q := range v.Q {
-					c.vecQ = append(c.vecQ, normHex(q.X)+","+normHex(q.Y))
+					c.vecQ = append(c.vecQ, fieldText(q.X)+","+fieldText(q.Y))
 				}
-				c.vecP = normHex(v.P.X) + "," + normHex(v.P.Y)
+				c.vecP = fieldText(v.P.X) + "," + fieldText(v.P.Y)
 			}
 		} else {
 			res.Note("model vectors for %s not loaded: %v", s.name, err)
@@ -407,11 +542,11 @@ func runH2cModel(a vh.Args, res *vh.Result, corpusDir string, nRandom int) {
 			// hash_to_field alone: other counts, the scalar field, the public single-element hashes
 			r2 := vh.NewRng(a.Seed, "C19", "h2f-"+s.name, i)
 			msg := randBytes(r2)
-			h := &hfCase{suite: s, scalar: r2.Bool(), count: 1 + r2.Intn(4), dst: dst, msg: msg, what: "HashToField"}
-			switch i % 4 {
-			case 0:
+			h := &hfCase{suite: s, scalar: r2.Bool() && s.h2fSc != nil, count: 1 + r2.Intn(4), dst: dst, msg: msg, what: "HashToField"}
+			switch {
+			case i%4 == 0 && s.scalarHash != nil:
 				h.scalar, h.count, h.dst, h.what = true, 1, s.scalarDst, "ScalarField.Hash"
-			case 1:
+			case i%4 == 1:
 				h.scalar, h.count, h.dst, h.what = false, 1, s.baseDst, "BaseField.Hash"
 			}
 			_ = vh.Safely(func() {
@@ -434,13 +569,39 @@ func runH2cModel(a vh.Args, res *vh.Result, corpusDir string, nRandom int) {
 					}
 				}
 			})
-			tbl, b, sz := xmdTable(s.mk, []byte(h.dst), msg, int(uint64(h.count)*s.l()))
+			tbl, b, sz := xmdTable(s.mk, []byte(h.dst), msg, int(uint64(h.count)*s.l())*max(1, s.m))
 			sc := 0
 			if h.scalar {
 				sc = 1
 			}
 			hfLines = append(hfLines, fmt.Sprintf("HF %d %s %d %d %d %d %s %s %s", len(hfCases), s.name, sc, h.count, b, sz, vh.Hex([]byte(h.dst)), vh.Hex(msg), tbl))
 			hfCases = append(hfCases, h)
+		}
+	}
+	// observation (not a mismatch): the suite identifier inside the library's default DST names the
+	// encode_to_curve variant (_NU_) while Hash performs the two-element hash_to_curve (_RO_) construction
+	for si := range suites {
+		s := &suites[si]
+		if strings.Contains(s.baseDst, "_NU_") {
+			res.Note("suite name: %s.Hash uses the DST %q, whose suite identifier names the non-uniform encode_to_curve variant, but computes the random-oracle hash_to_curve construction (two field elements, point addition); outputs equal the _RO_ construction under that DST", s.name, s.baseDst)
+		}
+	}
+	// the isogeny identity (hypothesis of zero_map_on_curve / iso_map_on_curve) evaluated by the extracted
+	// model on the regenerated constants of every suite that has an isogeny
+	var isoLines, isoNames []string
+	for _, n := range []string{"k256", "bls12381g1", "bls12381g2", "pallas", "vesta"} {
+		isoLines = append(isoLines, fmt.Sprintf("ISO %d %s", len(isoLines), n))
+		isoNames = append(isoNames, n)
+	}
+	if isoOut, err := vh.Driver(a.Driver, isoLines); err != nil {
+		fmt.Fprintln(os.Stderr, err)
+		os.Exit(3)
+	} else {
+		for i, n := range isoNames {
+			res.Count("isogeny-identity", "ISO "+n, true)
+			if !strings.HasSuffix(isoOut[i], " true") {
+				res.Mismatch(vh.Mismatch{ID: "ISO-" + n, Kind: "corr", Key: "isogeny-identity-" + n, Detail: "the regenerated isogeny coefficients of " + n + " do not satisfy (x^3+A'x+B') YNum^2 XDen^3 = YDen^2 (XNum^3 + a XNum XDen^2 + b XDen^3): model says " + isoOut[i], Case: "ISO " + n, What: "hypothesis iso_identity_b of C19_zero_map_on_curve_partial on the regenerated constants"})
+			}
 		}
 	}
 	if len(lines) == 0 {
@@ -487,7 +648,13 @@ func runH2cModel(a vh.Args, res *vh.Result, corpusDir string, nRandom int) {
 			bad("corr", "h2c-model-"+s.name, "hash_to_curve: model P="+mp+" (Q0="+mq0+" Q1="+mq1+") implementation P="+c.implP, pf, "correspondence hash_to_curve (model/H2cMap.v over gen/Mappers.v)")
 		}
 		if onc != "true" || sub != "true" {
-			bad("corr", "h2c-model-subgroup-"+s.name, "model point on_curve="+onc+" n*P=O: "+sub, false, "sswu_on_curve / cofactor_cleared_in_subgroup instantiated on the model's output")
+			if mp == c.implP {
+				// the implementation returned this very point: the property's predicate (on the curve, in the
+				// prime-order subgroup), evaluated by the Coq curve model, fails on the implementation's output
+				bad("prop", "h2c-subgroup-"+s.name, "implementation point "+c.implP+": on_curve="+onc+" n*P=O: "+sub+" (evaluated by the extracted curve model)", true, "hash-to-curve lands in the prime-order subgroup")
+			} else {
+				bad("corr", "h2c-model-subgroup-"+s.name, "model point on_curve="+onc+" n*P=O: "+sub, false, "sswu_on_curve / cofactor_cleared_in_subgroup instantiated on the model's output")
+			}
 		}
 		if c.vecU != nil {
 			if mu != strings.Join(c.vecU, ",") {
@@ -535,6 +702,10 @@ func refH2f(s *modelSuite, scalar bool, count int, dst string, msg []byte) strin
 		q, _ = new(big.Int).SetString("ffffffff00000001000000000000000000000000ffffffffffffffffffffffff", 16)
 	case s.name == "p256":
 		q, _ = new(big.Int).SetString("ffffffff00000000ffffffffffffffffbce6faada7179e84f3b9cac2fc632551", 16)
+	case (s.name == "pallas" && !scalar) || (s.name == "vesta" && scalar):
+		q, _ = new(big.Int).SetString("40000000000000000000000000000000224698fc094cf91b992d30ed00000001", 16)
+	case s.name == "pallas" || s.name == "vesta":
+		q, _ = new(big.Int).SetString("40000000000000000000000000000000224698fc0994a8dd8c46eb2100000001", 16)
 	case s.name == "edwards25519" && !scalar:
 		q, _ = new(big.Int).SetString("7fffffffffffffffffffffffffffffffffffffffffffffffffffffffffffffed", 16)
 	case s.name == "edwards25519":
@@ -545,8 +716,26 @@ func refH2f(s *modelSuite, scalar bool, count int, dst string, msg []byte) strin
 		q, _ = new(big.Int).SetString("73eda753299d7d483339d80809a1d80553bda402fffe5bfeffffffff00000001", 16)
 	}
 	L := 48
-	if s.name == "bls12381g1" {
+	if s.name == "bls12381g1" || s.name == "pallas" || s.name == "vesta" {
 		L = 64
+	}
+	if s.name == "pallas" || s.name == "vesta" {
+		return "(no harness reference for BLAKE2b)"
+	}
+	if s.name == "bls12381g2" {
+		q, _ = new(big.Int).SetString("1a0111ea397fe69a4b1ba7b6434bacd764774b84f38512bf6730d2a0f6b0f6241eabfffeb153ffffb9feffffffffaaab", 16)
+		u := refExpand(expCase{kind: "xmd-sha256", dst: []byte(dst), msg: msg, n: count * 2 * 64})
+		if u == "PANIC" {
+			return "PANIC"
+		}
+		ub := vh.UnHex(u)
+		var out []string
+		for i := 0; i < count; i++ {
+			c0 := new(big.Int).SetBytes(ub[(2*i)*64 : (2*i+1)*64])
+			c1 := new(big.Int).SetBytes(ub[(2*i+1)*64 : (2*i+2)*64])
+			out = append(out, c0.Mod(c0, q).Text(16)+":"+c1.Mod(c1, q).Text(16))
+		}
+		return strings.Join(out, ",")
 	}
 	kind := "xmd-sha256"
 	if s.name == "edwards25519" {
